@@ -7,7 +7,7 @@
 
     Paths are strings ([str]); [match_files] works on the target-relative path strings
     (`str(p.relative_to(parent_path))`) and returns them sorted, as the code does before re-joining the parent. *)
-From CM Require Export Base.Str.
+From CM Require Export Base.Str Base.Types_Glob.
 
 (* code points used below: '!'=33 '*'=42 '-'=45 '.'=46 '/'=47 '0'..'9'=48..57 ':'=58 '?'=63 '['=91 ']'=93 *)
 
@@ -259,9 +259,20 @@ Definition files_for_directory (t : tree) : list str :=
 (** ** context.py *)
 Definition or_none (l : list str) : option (list str) := match l with [] => None | _ => Some l end.   (* `l or None` *)
 
+(** the patterns that act at file level when they exclude: those without `:` *)
+Definition file_level (pats : list str) : list str := List.filter (fun x => negb (has_colon x)) pats.
+
+(** the exclude argument `find_and_fix_paths` hands to match_files ([None] = use DEFAULT_EXCLUDED_PATHS) *)
+Definition exclude_sentinel (form : exclude_sentinel_form) (path_exclude : list str) : option (list str) :=
+  match form with
+  | RawOrNone => or_none path_exclude
+  | FileLevelOrNone => or_none (file_level path_exclude)
+  end.
+
 (** `find_and_fix_paths` *)
-Definition find_and_fix_paths (defaults : list str * list str) (rels path_exclude path_include : list str) : list str :=
-  match_files defaults rels (or_none path_exclude) (or_none path_include).
+Definition find_and_fix_paths (form : exclude_sentinel_form) (defaults : list str * list str)
+           (rels path_exclude path_include : list str) : list str :=
+  match_files defaults rels (exclude_sentinel form path_exclude) (or_none path_include).
 
 (** `included_paths` = `path_include or registry.default_include_paths` *)
 Definition included_paths (path_include registry_default : list str) : list str :=
@@ -273,9 +284,9 @@ Definition filter_paths (defaults : list str * list str) (registry_default : lis
   match_files defaults paths (Some path_exclude) (Some (included_paths path_include registry_default)).
 
 (** `FindAndFixCodemod.get_files_to_analyze` *)
-Definition ff_files_to_analyze (defaults : list str * list str) (exts : list str)
+Definition ff_files_to_analyze (form : exclude_sentinel_form) (defaults : list str * list str) (exts : list str)
            (rels path_exclude path_include : list str) : list str :=
-  let sel := find_and_fix_paths defaults rels path_exclude path_include in
+  let sel := find_and_fix_paths form defaults rels path_exclude path_include in
   match exts with
   | [] => sel
   | _ => List.filter (fun p => mem_str (suffix_of p) exts) sel
@@ -286,3 +297,34 @@ Definition sast_files_to_analyze (defaults : list str * list str) (registry_defa
            (has_result : str -> bool) (rels path_exclude path_include : list str) : list str :=
   filter_paths defaults registry_default
     (List.filter (fun p => mem_str (suffix_of p) exts && has_result p) rels) path_exclude path_include.
+
+(** ** The dependency manifests a run may update (project_analysis/file_parsers/base_parser.py: `rglob(<name>)` per
+    manifest kind; context.process_dependencies: the first parsed store whose writer succeeds is written). *)
+Definition manifest_names : list str :=
+  [[112; 121; 112; 114; 111; 106; 101; 99; 116; 46; 116; 111; 109; 108]%N;                 (* pyproject.toml *)
+   [115; 101; 116; 117; 112; 46; 112; 121]%N;                                              (* setup.py *)
+   [114; 101; 113; 117; 105; 114; 101; 109; 101; 110; 116; 115; 46; 116; 120; 116]%N;      (* requirements.txt *)
+   [115; 101; 116; 117; 112; 46; 99; 102; 103]%N].                                         (* setup.cfg *)
+
+Definition manifest_kind_ok (lf : manifest_loc_form) (n : node) : bool :=
+  match n with
+  | NFile => true
+  | NLinkFile => match lf with AllNamed => true | SkipSymlinks => false end   (* a link that resolves to a file parses like one *)
+  | _ => false
+  end.
+
+(** the repaired `process_dependencies` keeps a store iff
+    `match_files(directory, [store.file], <file-level excludes> or None, ["*"])` is non-empty *)
+Definition manifest_not_excluded (defaults : list str * list str) (path_exclude : list str) (p : str) : bool :=
+  match match_files defaults [p] (exclude_sentinel FileLevelOrNone path_exclude) (Some [[42%N]]) with
+  | [] => false
+  | _ => true
+  end.
+
+Definition manifest_candidates (lf : manifest_loc_form) (ef : manifest_excl_form) (defaults : list str * list str)
+           (t : tree) (path_exclude : list str) : list str :=
+  let named := map fst (List.filter (fun e => mem_str (path_name (fst e)) manifest_names && manifest_kind_ok lf (snd e)) t) in
+  match ef with
+  | NoManifestExclusion => named
+  | FileLevelExcludes => List.filter (manifest_not_excluded defaults path_exclude) named
+  end.
